@@ -73,6 +73,8 @@ pub enum Fault {
     Header { text: String },
     /// a response that does not fit the buffer (execution error -225)
     Buffer { cap: u8 },
+    /// a response block whose length the 9-digit header field cannot express (a value fault)
+    BlockTooLong { len: u32 },
 }
 
 fn check_fault(f: &Fault, obs: &Obs) -> CheckResult {
@@ -89,6 +91,10 @@ fn check_fault(f: &Fault, obs: &Obs) -> CheckResult {
         Fault::Header { text } => {
             obs.label("fault: header / arity");
             (text.clone().into_bytes(), UnitPlan::default(), false)
+        }
+        Fault::BlockTooLong { len } => {
+            obs.label("fault: response block too long for its length field");
+            (b":A?".to_vec(), UnitPlan { respond: vec![crate::rec::RespDatum::ZeroBlock(*len)], ..Default::default() }, true)
         }
         Fault::Buffer { cap } => {
             obs.label("fault: response buffer exhausted");
@@ -164,6 +170,7 @@ fn fault_strategy() -> impl Strategy<Value = Fault> {
         5 => typed,
         2 => header,
         1 => any::<u8>().prop_map(|cap| Fault::Buffer { cap }),
+        1 => prop_oneof![Just(1_000_000_000u32), Just(1_000_000_001), Just(2_147_483_648), Just(4_294_967_295)].prop_map(|len| Fault::BlockTooLong { len }),
     ]
 }
 
